@@ -290,7 +290,7 @@ def all_node_classes():
 # covered by the bounded fuzz (and by their own contracts under other properties)
 NOT_REACHED = {
     ("liquid.extra.tags.extends_tag", "BlockNode"): "block stacks in tag_namespace['extends'] (C18 has its contracts)",
-    ("liquid.extra.tags.extends_tag", "ExtendsNode"): "builds the block stacks of the whole inheritance chain (set(), nested closures)",
+    ("liquid.extra.tags.extends_tag", "ExtendsNode"): "builds the block stacks of the whole inheritance chain (set(), nested closures): has its own escape contract in C02.py (C18's harness, failing callees)",
     ("liquid.extra.tags.macro_tag", "CallNode"): "binds arguments through macro_args (C27/C15 have its contracts)",
 }
 
